@@ -33,6 +33,7 @@ def _catch(ctx, fn):
     except BaseException as e:
         if ctx.dead is not None:
             raise ctx.dead
+        ctx.classify(e)
         return ("raise", e)
 
 
